@@ -1417,18 +1417,37 @@ func (c *Ctx) BranchOn(fnSpec, cond string, never []string, desc string) {
 		if !ok {
 			continue
 		}
-		for _, pol := range []bool{true, false} {
-			cd := Normalize(f.Term(iff.Cond), pol)
-			if pol {
-				seen = append(seen, cd.String())
+		// a branch on a join of boolean alternatives (the result of an inlined helper that returns the comparison
+		// from several places, or `x := a; if c { x = b }; if x`) is a branch on each non-constant alternative
+		var alts []*ir.Term
+		var flatten func(t *ir.Term, d int)
+		flatten = func(t *ir.Term, d int) {
+			if t.Op == "phi" && d < 3 {
+				for _, a := range t.Args {
+					flatten(a, d+1)
+				}
+				return
 			}
-			if matchCondAny(cond, cd) {
-				found = true
+			if t.Op == "const" && d > 0 {
+				return
 			}
-			for _, nv := range never {
-				if matchCondAny(c.X(nv), cd) {
-					c.add("P", fnSpec, role, desc, report.Violated, "branches on "+cd.String(), c.ifPos(iff, f))
-					return
+			alts = append(alts, t)
+		}
+		flatten(f.Term(iff.Cond), 0)
+		for _, at := range alts {
+			for _, pol := range []bool{true, false} {
+				cd := Normalize(at, pol)
+				if pol {
+					seen = append(seen, cd.String())
+				}
+				if matchCondAny(cond, cd) {
+					found = true
+				}
+				for _, nv := range never {
+					if matchCondAny(c.X(nv), cd) {
+						c.add("P", fnSpec, role, desc, report.Violated, "branches on "+cd.String(), c.ifPos(iff, f))
+						return
+					}
 				}
 			}
 		}
